@@ -277,6 +277,49 @@ func init() {
 	}
 }
 
+func init() {
+	agWith := func(t byte, i *authgrants.Intent, denial string) *authgrants.AgMessage {
+		m := new(authgrants.AgMessage)
+		m.Data.Intent = *zeroIntent()
+		SetAgType(m, t)
+		if i != nil {
+			m.Data.Intent = *i
+		}
+		m.Data.Denial = denial
+		return m
+	}
+	WString.Sweep = func() []Value { return []Value{pat(20, 'a')} }
+	Cert.Sweep = func() []Value { return []Value{certWith(chunkOfBody(12), 1700000000, 1800000000)} }
+	Intent.Sweep = func() []Value { return []Value{intentWith(2, 4, 6, 6, 10, 20), intentWith(1, 4, 0, 6, 10, 20)} }
+	Ag.Sweep = func() []Value {
+		return []Value{agWith(1, intentWith(2, 4, 6, 6, 10, 20), ""), agWith(2, intentWith(2, 4, 6, 6, 10, 20), ""), agWith(4, nil, "denied by policy"), agWith(3, nil, "")}
+	}
+	Proxy.Sweep = func() []Value { return []Value{ProxyResp{Reason: "connection refused"}, ProxyResp{Conf: true}} }
+	Exec.Sweep = func() []Value {
+		return []Value{ExecMsg{Pty: true, Cmd: "ls -l /tmp", Term: "xterm-256color", HasSize: true, R: 24, C: 80}, ExecMsg{Cmd: "id"}}
+	}
+	UserAuth.Sweep = func() []Value { return []Value{[]byte("alice")} }
+	Pf.Sweep = func() []Value {
+		return []Value{mkPf(3, 4, "", 0, "/run/app.sock"), mkPf(1, 5, "127.0.0.1", 8080, "")}
+	}
+}
+
+// LengthSweep derives, from a valid encoding b, the inputs in which the bytes at every offset
+// are replaced by a huge 1-, 2- or 4-byte big-endian value and the message ends right there:
+// whatever field of the format starts at that offset, if it is a length the decoder is asked for
+// far more than it is given. 0x10000000 (256 MiB) stays below the child's address-space cap,
+// so an over-allocation is measured; ff ff ff ff is the worst case.
+func LengthSweep(b []byte) [][]byte {
+	var out [][]byte
+	fields := [][]byte{{0xff}, {0xff, 0xff}, {0x10, 0, 0, 0}, {0xff, 0xff, 0xff, 0xff}}
+	for o := 0; o <= len(b); o++ {
+		for _, f := range fields {
+			out = append(out, append(append([]byte(nil), b[:o]...), f...))
+		}
+	}
+	return out
+}
+
 // chunkCorpus: id chunks whose declared length and blocks disagree.
 func chunkCorpus() [][]byte {
 	blk := func(n int, fill byte) []byte {
